@@ -151,6 +151,10 @@ func c02Cases() []c02Case {
 		{"trailing-garbage", func(a, b *gen.World) ([]byte, *gen.Key) {
 			return append(mk(a.Leaf, a.PKI.Int, a.PKI.Root), 'x', 'y'), a.Leaf.Key
 		}, true},
+		{"genuine-but-sgx-extension-marked-critical", func(a, b *gen.World) ([]byte, *gen.Key) {
+			c := gen.MakeLeaf(a.PKI.Int, gen.LeafSpec{KeyLabel: "c02/critical", SgxDER: gen.SgxTree(&a.Sgx).Encode(), SgxCritical: true})
+			return mk(c, a.PKI.Int, a.PKI.Root), c.Key
+		}, false},
 		{"leaf-without-sgx-extension", func(a, b *gen.World) ([]byte, *gen.Key) {
 			c := gen.MakeLeaf(a.PKI.Int, gen.LeafSpec{KeyLabel: "c02/nosgx"})
 			return mk(c, a.PKI.Int, a.PKI.Root), c.Key
@@ -227,9 +231,16 @@ func TestC02(t *testing.T) {
 		}
 		ts := a.Times
 		o := &verify.Options{TrustedRoots: pool, Now: &ts, Getter: gen.FailGetter{}}
+		at := a.Times.PckCertChain
+		if rapid.IntRange(0, 2).Draw(t, "defaultTimeSet") == 0 {
+			// the default time set (Options.Now == nil): every generated certificate is valid at the real current time
+			o.Now = nil
+			at = time.Now()
+			gen.Class("default-time-set")
+		}
 		gen.Eval()
 		v := gen.Call(func() error { return verify.RawTdxQuote(raw, o) })
-		ok, why := trustOracle(chain, roots, a.Times.PckCertChain)
+		ok, why := trustOracle(chain, roots, at)
 		cls := cs.name + "|" + pk
 		gen.Class("case:" + cs.name)
 		gen.Class("pool:" + pk)
@@ -241,6 +252,9 @@ func TestC02(t *testing.T) {
 			rp["roots_pem"] = ""
 		}
 		dontCare := cs.dontCare || pk == "A-intermediate-as-root" || pk == "A-leaf-as-root"
+		if cs.name == "genuine-but-sgx-extension-marked-critical" && (pk == "A" || pk == "A+B" || pk == "reissued-A") {
+			dontCare = true // the path exists; whether an unknown critical extension must stop it is not the property's business
+		}
 		if v.Accepted() && !ok && !dontCare {
 			gen.Fail(t, gen.Violation{Key: "trusts-outside-pool:" + cls, Oracle: "accepted => the leaf is a PCK certificate chaining via the quote's intermediate to the given pool", Detail: fmt.Sprintf("case=%s pool=%s accepted, oracle says: %s", cs.name, pk, why), Replay: rp})
 			return
@@ -344,6 +358,9 @@ func TestC02(t *testing.T) {
 			oo.CheckRevocations, oo.GetCollateral = false, false
 			ts := w.Times
 			oo.Now = &ts
+			if (i+nFiles+nInline)%2 == 0 {
+				oo.Now = nil // as RootOfTrustToOptions returns it: judged at the real current time
+			}
 			oo.Getter = gen.FailGetter{}
 			gen.Eval()
 			vv := gen.Call(func() error { return verify.RawTdxQuote(w.Raw, &oo) })
